@@ -566,6 +566,32 @@ func propCases(prop string, g *Gen, n int) []*Case {
 				refs = append(refs, &Ref{Kind: "recipe", R: cloneR(ref)}, &Ref{Kind: "recipe", R: g.perturb(ref)},
 					&Ref{Kind: "recipe", R: cloneR(e)})
 			}
+			if i%10 == 7 {
+				// a type that is sometimes a leaf and sometimes a wrapper: same type at the head of the
+				// chain, same message, different chain length
+				msg := g.sU()
+				leaf := &R{Op: "uleaf", S: []string{"dual", msg}, I: []int64{0}, Strs: []string{}}
+				wrapped := &R{Op: "uwrap", S: []string{"full", msg}, Kids: []*R{g.Tree(g.r.intn(2))}, Strs: []string{}}
+				if _, isNil := specText(wrapped); isNil {
+					wrapped.Kids[0] = g.Leaf(0)
+				}
+				a, b := leaf, wrapped
+				if g.r.chance(50) {
+					a, b = wrapped, leaf
+				}
+				r = a
+				switch g.r.intn(3) {
+				case 1:
+					r = g.Wrapper(cloneR(a), 1)
+				case 2:
+					r = &R{Op: "mark", Kids: []*R{g.Tree(1), cloneR(a)}}
+					if _, isNil := specText(r); isNil {
+						r = cloneR(a)
+					}
+				}
+				refs = []*Ref{{Kind: "recipe", R: cloneR(b)}, {Kind: "recipe", R: cloneR(a)}, {Kind: "recipe", R: g.Wrapper(cloneR(b), 1)}}
+				refs = append(refs, g.identityRefs(r, 1)...)
+			}
 			if i%10 == 3 {
 				// Mark(e, ref) where e already matches ref, but only through its own Is method:
 				// the mark must still make e match everything equivalent to ref
@@ -688,6 +714,17 @@ func propCases(prop string, g *Gen, n int) []*Case {
 	case "C14":
 		for i := 0; i < n; i++ {
 			r := g.Tree(1 + g.r.intn(5))
+			if i%12 == 5 {
+				// layers of one non-comparable value type directly above each other: nothing may compare them with ==
+				nc := func(k *R) *R { return &R{Op: "uwrap", S: []string{"nocmp", g.sU()}, Kids: []*R{k}, Strs: []string{}} }
+				r = nc(nc(g.Tree(g.r.intn(2))))
+				if g.r.chance(50) {
+					r = g.Wrapper(nc(r), 1)
+				}
+				if _, isNil := specText(r); isNil {
+					r = nc(nc(g.Leaf(0)))
+				}
+			}
 			refs := g.identityRefs(r, 3)
 			var obs []Obs
 			for k := range refs {
